@@ -126,3 +126,7 @@ def perf_counter():
 
 def strerror(code):
     return "strerror"
+
+
+def noop(*args):
+    return None
